@@ -266,3 +266,51 @@ def c08(ctx):
     return finish(ctx, rule=SOLVER_RULE + "; every constrained call is paired with the same call on a twin robot without "
                   "limits, and TLC recomputes compliance of every unconstrained answer with OnArc",
                   assumptions=SOLVER_ASSUME)
+
+
+# ----------------------------------------------------------------------------- C05
+@check("C05")
+def c05(ctx):
+    g = tlc(ctx, "Gen_Singular", workers=4)
+    lines = tlc_json_lines(g["out"], "singular")
+    if not lines:
+        raise core.ToolError("Gen_Singular printed nothing")
+    write_ndjson(ctx.path("sing.ndjson"), lines)
+    opwv(ctx, ["replay", "singular", ctx.path("sing.ndjson"), ctx.path("sing.out"), ctx.path("sing.trace")])
+    st = replay_results(ctx, ctx.path("sing.out"), "C05")
+    ctx.evaluations += st.get("evaluations", 0)
+    ctx.traces += len(lines)
+    for ln in lines:
+        if ln["expect"]:
+            ctx.nontrivial.add(("sing", ln["g5"], ln["sign5"], ln["off"], ln["stack"]))
+    opwv(ctx, ["record", "cont", ctx.path("cont.trace")])
+    with open(ctx.path("sing.trace"), "a") as f:
+        f.write(open(ctx.path("cont.trace")).read())
+    viols, done = trace_validate(ctx, "Trace_Singular", ctx.path("sing.trace"))
+    ev = read_ndjson(ctx.path("sing.trace"))
+
+    def key(e):
+        if e["ev"] == "sing":
+            return "offsets-%s:sign5%s" % (e["off"], "-" if e["sign5"] < 0 else "+")
+        return "offsets-%s:sign5%s:s46-%s" % (e["offsets"], "-" if e["sign5"] < 0 else "+", "equal" if e["s46_equal"] else "opposite")
+    for v in viols:
+        e = ev[v["l"] - 1]
+        for clause in v["clause"]:
+            ctx.violation("%s:%s" % (clause, key(e)), "event #%d %s" % (v["l"], json.dumps(e)[:800]), e)
+    ctx.evaluations += len(ev)
+    n_dem = 0
+    for e in ev:
+        if e["ev"] == "cont" and e["sens_nrad"] < 250 and not e["other_singular"]:
+            n_dem += 1
+            ctx.nontrivial.add(("cont", tuple(e["truth"])))
+    ctx.extra["continuity_cases_demanded"] = n_dem
+    ctx.sample(lines[7])
+    ctx.sample({k: v for k, v in ev[-1].items() if k != "params"})
+    return finish(ctx, rule="detection: every multiple of pi k in -4..4 x either side x depths {0,1,50,90,110,200 AU, far} x sign5 x "
+                  "offset class x wrapper, expected verdict computed by TLC (Gen_Singular) and cross-checked against the angle "
+                  "between the J4/J6 axes of the independent chain (Trace_Singular); continuity: exactly singular random postures, "
+                  "judged by Singular!Continuity when the oracle's arm sensitivity is below 0.25 urad; non-trivial = singular "
+                  "scenarios / demanded continuity cases",
+                  assumptions=["continuity demanded only below 0.25 urad arm sensitivity to the 0.125 um probing shift and when no "
+                               "other IK branch is singular (the property's own precondition)",
+                               "'J4 and J6 move by the same amount' is demanded for robots whose J4 and J6 sign corrections are equal"])
